@@ -596,7 +596,7 @@ class Machine(Interp):
         if isinstance(it, SRange):
             if all(isinstance(x, int) for x in (it.lo, it.hi, it.step)):
                 return list(range(it.lo, it.hi, it.step))
-            if not self.nofork and isinstance(it.step, int) and getattr(self, "concretize_ranges", False):
+            if not self.nofork and getattr(self, "concretize_ranges", False):
                 # bounded mode: decide small symbolic bounds on this path
                 def conc(x):
                     if isinstance(x, int):
@@ -608,7 +608,10 @@ class Machine(Interp):
                         raise Unsupported("range bound outside [-2, 40] in bounded mode", node)
                     raise Unsupported("range bound %r" % (x,), node)
 
-                return list(range(conc(it.lo), conc(it.hi), it.step))
+                step = conc(it.step)
+                if step == 0:
+                    raise PyRaise("ValueError", node)
+                return list(range(conc(it.lo), conc(it.hi), step))
             raise Unsupported("range with symbolic bounds needs an invariant", node)
         if isinstance(it, SEnumerate):
             st = it.start
